@@ -2,27 +2,41 @@
 //!
 //! Requests (all run REAL pipelines / functions of ironbeam):
 //!
-//! `VALIDATE <skip|log|ff> <rec|kv> <mode|short> <c0|c1> <seq|par:N> <rows>`
+//! `VALIDATE <skip|log|ff> <rec|kv> <mode|short> <COLL> <seq|par:N|par:none> <rows>`
 //!     rows  : `-` or comma-separated `id:SPEC` (rec) / `key=id:SPEC` (kv); SPEC = `V` (validate() = Ok) or
 //!             `E<digits>` (validate() = Err(list of the errors with these one-digit codes); `E` = Err(vec![]))
-//!     api   : `mode`  = validate_with_mode / validate_values_with_mode (collector Some iff c1)
+//!     api   : `mode`  = validate_with_mode / validate_values_with_mode (collector Some unless COLL = c0)
 //!             `short` = validate_skip_invalid / validate_fail_fast / validate_values_skip_invalid (c0 only)
-//!     answer: `OK kept=<rows|-> log=<sorted entries record_id/E<digits>|->`  (entries as found in the shared
-//!             ErrorCollector after the run, sorted), or `PANIC at=<idx>:E<digits>` (sequential: the panic message
+//!     COLL  : state of the user's `Arc<Mutex<ErrorCollector>>` BEFORE the run: `c0` = no collector is passed,
+//!             `c1` = a collector whose mutex is healthy, `cp` = a collector whose mutex is POISONED (another
+//!             thread panicked while holding the lock); `c1+<entries>` / `cp+<entries>` = it already holds these
+//!             entries (comma-separated `<record_id|none>/E<digits>`, in order) — pre-populated by the user or
+//!             left there by an earlier run that used the same collector
+//!     exec  : `par:none` = `collect_par(_, None)`: the partition count is the planner's suggestion, which depends
+//!             on the machine's core count; record ids are partition-local, so for this form the log is
+//!             rendered without ids
+//!     answer: `OK kept=<rows|-> pre=<the first |init| entries now in the collector, in order|-> log=<the entries
+//!             after them|->` — the new entries in collector order for `seq`, sorted for `par:N`, sorted and
+//!             without ids for `par:none`; or `PANIC at=<idx>:E<digits>` (sequential: the panic message
 //!             names the failing index and errors) / `PANIC` (parallel: which partition's panic is propagated is
 //!             scheduling-dependent, so only the fact is compared)
 //! `COMBINE <results>`   results: `-` or comma-separated `V` / `E<digits>`;  answer `OK` | `ERR <digits|->`
-//! `VPIPE <skip|log|ff> <c0|c1> <seq|par:N> <steps> <rows>`  keyed pipeline `from_vec → steps → collect`, steps a
-//!     `+`-separated list drawn from `inc` (map_values: shift every error code by one, mod 10), `heal`
-//!     (map_values: a record whose errors are all even becomes valid), `odd` (filter_values: keep records with an
-//!     odd id), `val` (validate_values_with_mode) — the block goes through the REAL planner, so a validator that
-//!     let itself be moved would change the answer. answer as for VALIDATE.
+//! `VPIPE <skip|log|ff> <rec|kv> <COLL> <seq|par:N|par:none> <steps> <rows>`  pipeline `from_vec → steps → collect`,
+//!     steps a `+`-separated list drawn from `inc` (map_values / map: shift every error code by one, mod 10),
+//!     `heal` (map_values / map: a record whose errors are all even becomes valid), `brk` (map_values / map: a
+//!     VALID record whose id is divisible by 3 becomes invalid with the one error `id mod 10`), `odd`
+//!     (filter_values / filter: keep records with an odd id), `val` (validate_values_with_mode /
+//!     validate_with_mode; EVERY `val` of the request shares the one collector) — the block goes through the
+//!     REAL planner (fusion + reorder pass), so a validator that let itself be moved would change the answer.
+//!     answer as for VALIDATE.
 //!
 //! Oracle (independent of the Lean model; computed from the request alone): output = the valid records in
-//! order; in log mode with a collector the multiset of logged error lists = the invalid records' error lists
-//! (hence one entry per invalid record and |output| + |entries| = |input|); nothing is logged otherwise;
-//! skip/log never fail; fail-fast fails iff some record is invalid; combine is Ok iff every part is Ok and
-//! otherwise carries the concatenation of all error lists in order.
+//! order; whatever was in the collector before the run is still there, unchanged, in front; in log mode with a
+//! collector the multiset of error lists logged BY THIS RUN = the invalid records' error lists (hence one entry
+//! per invalid record and |output| + |new entries| = |input|); nothing is logged otherwise; skip/log never
+//! fail — also when the collector's mutex is poisoned; fail-fast fails iff some record is invalid;
+//! `error_count()` = `errors().len()`; combine is Ok iff every part is Ok and otherwise carries the
+//! concatenation of all error lists in order.
 
 use crate::ctx::{Ctx, Tier, guarded};
 use ironbeam::validation::{
@@ -94,40 +108,88 @@ impl Mode {
 const MODES: [Mode; 3] = [Mode::Skip, Mode::Log, Mode::Ff];
 
 #[derive(Clone, Copy, PartialEq, Eq, Debug)]
-enum Exec { Seq, Par(usize) }
+enum Exec { Seq, Par(usize), ParNone }
 impl Exec {
-    fn tok(self) -> String { match self { Exec::Seq => "seq".into(), Exec::Par(n) => format!("par:{n}") } }
+    fn tok(self) -> String { match self { Exec::Seq => "seq".into(), Exec::Par(n) => format!("par:{n}"), Exec::ParNone => "par:none".into() } }
 }
 
+fn digits(cs: &[u8]) -> String { cs.iter().map(|c| (b'0' + c) as char).collect() }
 fn spec(errs: &Option<Vec<u8>>) -> String {
     match errs {
         None => "V".into(),
-        Some(cs) => format!("E{}", cs.iter().map(|c| (b'0' + c) as char).collect::<String>()),
+        Some(cs) => format!("E{}", digits(cs)),
     }
 }
 fn enc_rec(r: &Rec) -> String { format!("{}:{}", r.id, spec(&r.errs)) }
 fn enc_kv(kv: &(i64, Rec)) -> String { format!("{}={}", kv.0, enc_rec(&kv.1)) }
 fn join_or_dash(v: Vec<String>) -> String { if v.is_empty() { "-".into() } else { v.join(",") } }
 
+/// one collector entry, canonicalised: (record_id or "none", error codes)
+type Entry = (String, String);
+fn enc_entry(e: &Entry) -> String { format!("{}/E{}", e.0, e.1) }
+
+/// State of the user's `Arc<Mutex<ErrorCollector>>` before a run.
+#[derive(Clone, Debug, PartialEq, Eq)]
+struct Coll {
+    /// false = no collector is handed to the builder (`None`)
+    present: bool,
+    /// the mutex is poisoned (a thread panicked while holding the guard)
+    poisoned: bool,
+    /// entries already in it, in order
+    init: Vec<Entry>,
+}
+impl Coll {
+    fn none() -> Coll { Coll { present: false, poisoned: false, init: vec![] } }
+    fn fresh() -> Coll { Coll { present: true, poisoned: false, init: vec![] } }
+    fn of(present: bool) -> Coll { if present { Coll::fresh() } else { Coll::none() } }
+    fn tok(&self) -> String {
+        let head = if !self.present { "c0" } else if self.poisoned { "cp" } else { "c1" };
+        if self.init.is_empty() { head.to_string() } else { format!("{head}+{}", self.init.iter().map(enc_entry).collect::<Vec<_>>().join(",")) }
+    }
+    /// the real object in this state (built also for `c0`: it is then NOT passed, and must stay as it is)
+    fn build(&self) -> Arc<Mutex<ErrorCollector>> {
+        let mut ec = ErrorCollector::new();
+        for (id, cs) in &self.init {
+            let id = if id == "none" { None } else { Some(id.clone()) };
+            ec.add_error(id, cs.bytes().map(|b| err_of(b - b'0')).collect());
+        }
+        let a = Arc::new(Mutex::new(ec));
+        if self.poisoned { poison(&a); }
+        a
+    }
+}
+
+/// what user code does to poison the collector: panic while holding the guard (e.g. inside a reporting loop)
+fn poison(a: &Arc<Mutex<ErrorCollector>>) {
+    let b = Arc::clone(a);
+    let _ = std::thread::spawn(move || {
+        let _g = b.lock().unwrap_or_else(std::sync::PoisonError::into_inner);
+        panic!("user code panicked while holding the collector");
+    })
+    .join();
+    assert!(a.is_poisoned(), "harness: could not poison the collector");
+}
+
 /// what a run left behind, canonicalised
 struct Obs {
     /// Ok(kept rows as tokens) or Err(panic message)
     out: Result<Vec<String>, String>,
-    /// (record_id, error codes) in collector order
-    log: Vec<(String, String)>,
+    /// the whole collector content, in collector order
+    log: Vec<Entry>,
+    /// `ErrorCollector::error_count()`
+    count: usize,
 }
 
-fn read_collector(c: &Arc<Mutex<ErrorCollector>>) -> Vec<(String, String)> {
+fn read_collector(c: &Arc<Mutex<ErrorCollector>>) -> (Vec<Entry>, usize) {
     // a panic while the lock is held would poison it; the entries are still there
     let g = match c.lock() { Ok(g) => g, Err(p) => p.into_inner() };
     let n = g.error_count();
-    let v: Vec<(String, String)> = g
+    let v: Vec<Entry> = g
         .errors()
         .iter()
         .map(|re| (re.record_id.clone().unwrap_or_else(|| "none".into()), re.errors.iter().map(code_of).collect::<String>()))
         .collect();
-    assert_eq!(n, v.len());
-    v
+    (v, n)
 }
 
 const THREADS: Option<usize> = Some(8);
@@ -140,8 +202,15 @@ fn flatten_run<T>(r: Result<anyhow::Result<Vec<T>>, String>, enc: impl Fn(&T) ->
     }
 }
 
-fn run_rec(mode: Mode, short: bool, coll: bool, exec: Exec, rows: &[Rec]) -> Obs {
-    let collector = Arc::new(Mutex::new(ErrorCollector::new()));
+fn collect<T: ironbeam::RFBound>(c: ironbeam::PCollection<T>, exec: Exec) -> Result<anyhow::Result<Vec<T>>, String> {
+    guarded(move || match exec {
+        Exec::Seq => c.collect_seq(),
+        Exec::Par(n) => c.collect_par(THREADS, Some(n)),
+        Exec::ParNone => c.collect_par(THREADS, None),
+    })
+}
+
+fn run_rec(mode: Mode, short: bool, coll: &Coll, arc: &Arc<Mutex<ErrorCollector>>, exec: Exec, rows: &[Rec]) -> Obs {
     let p = Pipeline::default();
     let src = from_vec(&p, rows.to_vec());
     let v = if short {
@@ -151,17 +220,14 @@ fn run_rec(mode: Mode, short: bool, coll: bool, exec: Exec, rows: &[Rec]) -> Obs
             Mode::Log => unreachable!(),
         }
     } else {
-        src.validate_with_mode(mode.real(), if coll { Some(Arc::clone(&collector)) } else { None })
+        src.validate_with_mode(mode.real(), if coll.present { Some(Arc::clone(arc)) } else { None })
     };
-    let r = guarded(move || match exec {
-        Exec::Seq => v.collect_seq(),
-        Exec::Par(n) => v.collect_par(THREADS, Some(n)),
-    });
-    Obs { out: flatten_run(r, enc_rec), log: read_collector(&collector) }
+    let out = flatten_run(collect(v, exec), enc_rec);
+    let (log, count) = read_collector(arc);
+    Obs { out, log, count }
 }
 
-fn run_kv(mode: Mode, short: bool, coll: bool, exec: Exec, rows: &[(i64, Rec)]) -> Obs {
-    let collector = Arc::new(Mutex::new(ErrorCollector::new()));
+fn run_kv(mode: Mode, short: bool, coll: &Coll, arc: &Arc<Mutex<ErrorCollector>>, exec: Exec, rows: &[(i64, Rec)]) -> Obs {
     let p = Pipeline::default();
     let src = from_vec(&p, rows.to_vec());
     let v = if short {
@@ -170,13 +236,11 @@ fn run_kv(mode: Mode, short: bool, coll: bool, exec: Exec, rows: &[(i64, Rec)]) 
             _ => unreachable!(),
         }
     } else {
-        src.validate_values_with_mode(mode.real(), if coll { Some(Arc::clone(&collector)) } else { None })
+        src.validate_values_with_mode(mode.real(), if coll.present { Some(Arc::clone(arc)) } else { None })
     };
-    let r = guarded(move || match exec {
-        Exec::Seq => v.collect_seq(),
-        Exec::Par(n) => v.collect_par(THREADS, Some(n)),
-    });
-    Obs { out: flatten_run(r, enc_kv), log: read_collector(&collector) }
+    let out = flatten_run(collect(v, exec), enc_kv);
+    let (log, count) = read_collector(arc);
+    Obs { out, log, count }
 }
 
 /// `Validation failed at <record|pair> <idx>: <e1>, <e2>` ↦ (idx, codes)
@@ -189,30 +253,49 @@ fn parse_panic(msg: &str, keyed: bool) -> Option<(usize, String)> {
     Some((idx, codes))
 }
 
-fn canon_answer(obs: &Obs, exec: Exec, keyed: bool) -> String {
-    let mut log: Vec<String> = obs.log.iter().map(|(id, cs)| format!("{id}/E{cs}")).collect();
-    log.sort();
+fn canon_answer(obs: &Obs, coll: &Coll, exec: Exec, keyed: bool) -> String {
+    let k = coll.init.len().min(obs.log.len());
+    let pre: Vec<String> = obs.log[..k].iter().map(enc_entry).collect();
+    let mut log: Vec<String> = obs.log[k..].iter().map(|e| if exec == Exec::ParNone { format!("E{}", e.1) } else { enc_entry(e) }).collect();
+    if exec != Exec::Seq { log.sort(); }
     match &obs.out {
-        Ok(kept) => format!("OK kept={} log={}", join_or_dash(kept.clone()), join_or_dash(log)),
+        Ok(kept) => format!("OK kept={} pre={} log={}", join_or_dash(kept.clone()), join_or_dash(pre), join_or_dash(log)),
         Err(msg) if msg.starts_with("ERR ") => "ERR".to_string(),
         Err(msg) => match (exec, parse_panic(msg, keyed)) {
             (Exec::Seq, Some((i, cs))) => format!("PANIC at={i}:E{cs}"),
             (Exec::Seq, None) => "PANIC unparsed".to_string(),
-            (Exec::Par(_), _) => "PANIC".to_string(),
+            (_, _) => "PANIC".to_string(),
         },
     }
 }
 
+/// The part of the property's statement that is about the collector object itself (any request kind):
+/// what was in it before the run is still there, in front and unchanged; its two accessors agree.
+/// Returns the entries added by this run.
+fn oracle_collector(cx: &mut Ctx, i: usize, coll: &Coll, obs: &Obs) -> Vec<Entry> {
+    if obs.count != obs.log.len() {
+        cx.oracle_fail(i, "error-count-differs-from-number-of-entries", format!("error_count() = {} but errors() has {} entries", obs.count, obs.log.len()));
+    }
+    let k = coll.init.len();
+    if obs.log.len() < k || obs.log[..k] != coll.init[..] {
+        cx.oracle_fail(i, "collector-earlier-entries-lost-or-changed", format!("the collector held {:?} before the run and {:?} after it", coll.init, obs.log));
+        return vec![];
+    }
+    obs.log[k..].to_vec()
+}
+
 /// The property's own statement on one observed run. `recs` = the records in input order (values for kv),
 /// `toks` = their row tokens.
-fn oracle(cx: &mut Ctx, i: usize, mode: Mode, coll: bool, keyed: bool, recs: &[&Rec], toks: &[String], obs: &Obs) {
+fn oracle(cx: &mut Ctx, i: usize, mode: Mode, coll: &Coll, keyed: bool, recs: &[&Rec], toks: &[String], obs: &Obs) {
     let valid_toks: Vec<String> = recs.iter().zip(toks).filter(|(r, _)| r.errs.is_none()).map(|(_, t)| t.clone()).collect();
-    let mut invalid_errs: Vec<String> = recs.iter().filter_map(|r| r.errs.as_ref().map(|cs| cs.iter().map(|c| (b'0' + c) as char).collect())).collect();
+    let invalid_in_order: Vec<String> = recs.iter().filter_map(|r| r.errs.as_ref().map(|cs| digits(cs))).collect();
+    let mut invalid_errs = invalid_in_order.clone();
     invalid_errs.sort();
     let any_invalid = !invalid_errs.is_empty();
     match (&obs.out, mode) {
         (Err(m), Mode::Skip | Mode::Log) => {
-            cx.oracle_fail(i, "skip-or-log-run-failed", format!("mode {} failed: {m}", mode.tok()));
+            let sig = if coll.poisoned && m.contains("PoisonError") { "skip-or-log-run-failed-on-poisoned-collector" } else { "skip-or-log-run-failed" };
+            cx.oracle_fail(i, sig, format!("mode {} failed: {m}", mode.tok()));
         }
         (Err(m), Mode::Ff) => {
             if !any_invalid {
@@ -232,53 +315,86 @@ fn oracle(cx: &mut Ctx, i: usize, mode: Mode, coll: bool, keyed: bool, recs: &[&
             }
         }
     }
-    let mut logged: Vec<String> = obs.log.iter().map(|x| x.1.clone()).collect();
+    let new = oracle_collector(cx, i, coll, obs);
+    let in_order: Vec<String> = new.iter().map(|x| x.1.clone()).collect();
+    let mut logged = in_order.clone();
     logged.sort();
-    if mode == Mode::Log && coll {
-        if obs.out.is_ok() {
+    if mode == Mode::Log && coll.present {
+        if let Ok(k) = &obs.out {
             if logged != invalid_errs {
                 cx.oracle_fail(i, "collector-not-one-entry-per-invalid-record", format!("expected error lists {invalid_errs:?} got {logged:?}"));
             }
-            if let Ok(k) = &obs.out {
-                if k.len() + obs.log.len() != recs.len() {
-                    cx.oracle_fail(i, "counts-do-not-add-up", format!("{} kept + {} logged != {} input", k.len(), obs.log.len(), recs.len()));
-                }
+            if k.len() + new.len() != recs.len() {
+                cx.oracle_fail(i, "counts-do-not-add-up", format!("{} kept + {} logged != {} input", k.len(), new.len(), recs.len()));
             }
         }
     } else if !logged.is_empty() {
-        cx.oracle_fail(i, "logged-outside-log-mode", format!("mode {} coll={coll}: collector has {} entries", mode.tok(), logged.len()));
+        cx.oracle_fail(i, "logged-outside-log-mode", format!("mode {} coll={}: the run added {} entries", mode.tok(), coll.tok(), logged.len()));
     }
 }
 
-fn case_rec(cx: &mut Ctx, mode: Mode, short: bool, coll: bool, exec: Exec, rows: &[Rec]) {
-    let obs = run_rec(mode, short, coll, exec, rows);
+fn coll_stats(cx: &mut Ctx, coll: &Coll) {
+    if coll.poisoned { cx.count("collector:poisoned"); }
+    if !coll.init.is_empty() { cx.count("collector:pre-populated"); }
+}
+
+fn case_rec_on(cx: &mut Ctx, mode: Mode, short: bool, coll: &Coll, arc: &Arc<Mutex<ErrorCollector>>, exec: Exec, rows: &[Rec]) -> Obs {
+    let obs = run_rec(mode, short, coll, arc, exec, rows);
     let toks: Vec<String> = rows.iter().map(enc_rec).collect();
-    let req = format!("VALIDATE {} rec {} {} {} {}", mode.tok(), if short { "short" } else { "mode" }, if coll { "c1" } else { "c0" }, exec.tok(), join_or_dash(toks.clone()));
+    let req = format!("VALIDATE {} rec {} {} {} {}", mode.tok(), if short { "short" } else { "mode" }, coll.tok(), exec.tok(), join_or_dash(toks.clone()));
     let nt = rows.iter().any(|r| r.errs.is_some()) && rows.iter().any(|r| r.errs.is_none());
-    let i = cx.case(req, canon_answer(&obs, exec, false), nt);
+    let i = cx.case(req, canon_answer(&obs, coll, exec, false), nt);
     let recs: Vec<&Rec> = rows.iter().collect();
     oracle(cx, i, mode, coll, false, &recs, &toks, &obs);
-    stats(cx, mode, false, exec, rows.len(), &obs);
+    stats(cx, mode, false, coll, exec, rows.len(), &obs);
+    obs
 }
 
-fn case_kv(cx: &mut Ctx, mode: Mode, short: bool, coll: bool, exec: Exec, rows: &[(i64, Rec)]) {
-    let obs = run_kv(mode, short, coll, exec, rows);
+fn case_kv_on(cx: &mut Ctx, mode: Mode, short: bool, coll: &Coll, arc: &Arc<Mutex<ErrorCollector>>, exec: Exec, rows: &[(i64, Rec)]) -> Obs {
+    let obs = run_kv(mode, short, coll, arc, exec, rows);
     let toks: Vec<String> = rows.iter().map(enc_kv).collect();
-    let req = format!("VALIDATE {} kv {} {} {} {}", mode.tok(), if short { "short" } else { "mode" }, if coll { "c1" } else { "c0" }, exec.tok(), join_or_dash(toks.clone()));
+    let req = format!("VALIDATE {} kv {} {} {} {}", mode.tok(), if short { "short" } else { "mode" }, coll.tok(), exec.tok(), join_or_dash(toks.clone()));
     let nt = rows.iter().any(|r| r.1.errs.is_some()) && rows.iter().any(|r| r.1.errs.is_none());
-    let i = cx.case(req, canon_answer(&obs, exec, true), nt);
+    let i = cx.case(req, canon_answer(&obs, coll, exec, true), nt);
     let recs: Vec<&Rec> = rows.iter().map(|r| &r.1).collect();
     oracle(cx, i, mode, coll, true, &recs, &toks, &obs);
-    stats(cx, mode, true, exec, rows.len(), &obs);
+    stats(cx, mode, true, coll, exec, rows.len(), &obs);
+    obs
 }
 
-fn stats(cx: &mut Ctx, mode: Mode, keyed: bool, exec: Exec, len: usize, obs: &Obs) {
+/// one run on a collector in state `coll` that nobody else uses
+fn case_rec_c(cx: &mut Ctx, mode: Mode, short: bool, coll: &Coll, exec: Exec, rows: &[Rec]) {
+    let arc = coll.build();
+    case_rec_on(cx, mode, short, coll, &arc, exec, rows);
+}
+fn case_kv_c(cx: &mut Ctx, mode: Mode, short: bool, coll: &Coll, exec: Exec, rows: &[(i64, Rec)]) {
+    let arc = coll.build();
+    case_kv_on(cx, mode, short, coll, &arc, exec, rows);
+}
+fn case_rec(cx: &mut Ctx, mode: Mode, short: bool, coll: bool, exec: Exec, rows: &[Rec]) { case_rec_c(cx, mode, short, &Coll::of(coll), exec, rows); }
+fn case_kv(cx: &mut Ctx, mode: Mode, short: bool, coll: bool, exec: Exec, rows: &[(i64, Rec)]) { case_kv_c(cx, mode, short, &Coll::of(coll), exec, rows); }
+
+/// TWO runs that share ONE collector object: a log-mode run over `rows1`, then a `mode2` run over `rows2` with the
+/// same `Arc`. Each run is a case of its own; the second one's request states what the first one really left in
+/// the collector. The first run is sequential or one partition, so that this content (and with it the second
+/// request line) does not depend on scheduling.
+fn case_reuse(cx: &mut Ctx, keyed: bool, coll0: &Coll, exec1: Exec, rows1: &[Rec], mode2: Mode, exec2: Exec, rows2: &[Rec]) {
+    assert!(matches!(exec1, Exec::Seq | Exec::Par(1)) && coll0.present);
+    let arc = coll0.build();
+    let obs1 = if keyed { case_kv_on(cx, Mode::Log, false, coll0, &arc, exec1, &mk_kv(rows1)) } else { case_rec_on(cx, Mode::Log, false, coll0, &arc, exec1, rows1) };
+    let coll1 = Coll { present: true, poisoned: coll0.poisoned, init: obs1.log.clone() };
+    if keyed { case_kv_on(cx, mode2, false, &coll1, &arc, exec2, &mk_kv(rows2)); } else { case_rec_on(cx, mode2, false, &coll1, &arc, exec2, rows2); }
+    cx.count("collector:reused-by-a-second-run");
+}
+
+fn stats(cx: &mut Ctx, mode: Mode, keyed: bool, coll: &Coll, exec: Exec, len: usize, obs: &Obs) {
     cx.count(&format!("mode:{}", mode.tok()));
     cx.count(if keyed { "shape:kv" } else { "shape:rec" });
-    cx.count(match exec { Exec::Seq => "exec:seq", Exec::Par(1) => "exec:par1", Exec::Par(n) if n >= len.max(1) => "exec:par>=len", Exec::Par(_) => "exec:par<len" });
+    cx.count(match exec { Exec::Seq => "exec:seq", Exec::ParNone => "exec:par-none", Exec::Par(1) => "exec:par1", Exec::Par(n) if n >= len.max(1) => "exec:par>=len", Exec::Par(_) => "exec:par<len" });
     cx.count(match len { 0 => "len:0", 1 => "len:1", 2..=6 => "len:2-6", 7..=30 => "len:7-30", _ => "len:31+" });
     cx.count(if obs.out.is_ok() { "outcome:ok" } else { "outcome:panic" });
-    if !obs.log.is_empty() { cx.count("collector:nonempty"); }
+    if obs.log.len() > coll.init.len() { cx.count("collector:run-added-entries"); }
+    coll_stats(cx, coll);
 }
 
 /// every (mode, api, collector) combination the public API offers for one shape
@@ -293,16 +409,47 @@ fn variants(keyed: bool) -> Vec<(Mode, bool, bool)> {
     v
 }
 
+fn ent(id: &str, cs: &str) -> Entry { (id.to_string(), cs.to_string()) }
+
+/// the non-fresh collector states of the deterministic blocks: pre-populated with entries whose ids are the
+/// very ids a run is going to push (both prefixes, indexes 0 and 1), an id-less entry and an entry with an empty
+/// error list; a poisoned mutex; both
+fn used_states() -> Vec<Coll> {
+    let pre = vec![ent("record_0", "7"), ent("pair_0", "7"), ent("none", ""), ent("record_1", "12"), ent("pair_1", "")];
+    vec![
+        Coll { present: true, poisoned: false, init: pre.clone() },
+        Coll { present: true, poisoned: true, init: vec![] },
+        Coll { present: true, poisoned: true, init: pre[..3].to_vec() },
+    ]
+}
+
+fn random_coll(cx: &mut Ctx) -> Coll {
+    let mut c = Coll::fresh();
+    match cx.rng.below(6) {
+        0 | 1 => {
+            let n = 1 + cx.rng.below(4);
+            for _ in 0..n {
+                let id = match cx.rng.below(5) { 0 => "none".to_string(), 1 | 2 => format!("record_{}", cx.rng.below(4)), _ => format!("pair_{}", cx.rng.below(4)) };
+                let cs = random_errs(cx);
+                c.init.push((id, digits(&cs)));
+            }
+        }
+        2 => c.poisoned = true,
+        3 => { c.poisoned = true; c.init.push(ent("record_0", "5")); c.init.push(ent("pair_0", "5")); }
+        _ => {}
+    }
+    c
+}
+
 fn mk_rows(pattern: &[Option<Vec<u8>>]) -> Vec<Rec> {
     pattern.iter().enumerate().map(|(i, e)| Rec { id: i as i64, errs: e.clone() }).collect()
 }
 fn key_of(id: i64) -> i64 { (id * 7 + 3) % 5 }
 fn mk_kv(rows: &[Rec]) -> Vec<(i64, Rec)> { rows.iter().map(|r| (key_of(r.id), r.clone())).collect() }
 
-fn all_execs(len: usize, upto: usize) -> Vec<Exec> {
+fn all_execs(upto: usize) -> Vec<Exec> {
     let mut v = vec![Exec::Seq];
     for n in 1..=upto { v.push(Exec::Par(n)); }
-    let _ = len;
     v
 }
 fn some_execs(len: usize) -> Vec<Exec> {
@@ -354,12 +501,12 @@ fn one_combine(cx: &mut Ctx, parts: &[Option<Vec<u8>>]) {
     }
 }
 
-// ---------------------------------------------------------------- planner pin (VPIPE)
+// ---------------------------------------------------------------- fused blocks through the planner (VPIPE)
 
 #[derive(Clone, Copy, PartialEq, Eq, Debug)]
-enum Step { Inc, Heal, Odd, Val }
+enum Step { Inc, Heal, Brk, Odd, Val }
 impl Step {
-    fn tok(self) -> &'static str { match self { Step::Inc => "inc", Step::Heal => "heal", Step::Odd => "odd", Step::Val => "val" } }
+    fn tok(self) -> &'static str { match self { Step::Inc => "inc", Step::Heal => "heal", Step::Brk => "brk", Step::Odd => "odd", Step::Val => "val" } }
 }
 fn step_inc(r: &Rec) -> Rec { Rec { id: r.id, errs: r.errs.as_ref().map(|cs| cs.iter().map(|c| (c + 1) % 10).collect()) } }
 fn step_heal(r: &Rec) -> Rec {
@@ -368,67 +515,93 @@ fn step_heal(r: &Rec) -> Rec {
         _ => r.clone(),
     }
 }
+/// the only step that makes a valid record invalid — so that a SECOND validator of the same block logs too
+fn step_brk(r: &Rec) -> Rec {
+    match &r.errs {
+        None if r.id.rem_euclid(3) == 0 => Rec { id: r.id, errs: Some(vec![r.id.rem_euclid(10) as u8]) },
+        _ => r.clone(),
+    }
+}
 fn step_odd(r: &Rec) -> bool { r.id % 2 != 0 }
 
-fn case_vpipe(cx: &mut Ctx, mode: Mode, coll: bool, exec: Exec, steps: &[Step], rows: &[(i64, Rec)]) {
-    let collector = Arc::new(Mutex::new(ErrorCollector::new()));
+fn steps_tok(steps: &[Step]) -> String { steps.iter().map(|s| s.tok()).collect::<Vec<_>>().join("+") }
+
+/// `rows` are keyed rows; for the unkeyed shape only the records are used
+fn case_vpipe(cx: &mut Ctx, mode: Mode, keyed: bool, coll: &Coll, exec: Exec, steps: &[Step], rows: &[(i64, Rec)]) {
+    let collector = coll.build();
+    let handle = || if coll.present { Some(Arc::clone(&collector)) } else { None };
     let p = Pipeline::default();
-    let mut c = from_vec(&p, rows.to_vec());
-    for s in steps {
-        c = match s {
-            Step::Inc => c.map_values(|r: &Rec| step_inc(r)),
-            Step::Heal => c.map_values(|r: &Rec| step_heal(r)),
-            Step::Odd => c.filter_values(|r: &Rec| step_odd(r)),
-            Step::Val => c.validate_values_with_mode(mode.real(), if coll { Some(Arc::clone(&collector)) } else { None }),
-        };
-    }
-    let r = guarded(move || match exec {
-        Exec::Seq => c.collect_seq(),
-        Exec::Par(n) => c.collect_par(THREADS, Some(n)),
-    });
-    let obs = Obs { out: flatten_run(r, enc_kv), log: read_collector(&collector) };
-    let toks: Vec<String> = rows.iter().map(enc_kv).collect();
-    let req = format!(
-        "VPIPE {} {} {} {} {}",
-        mode.tok(),
-        if coll { "c1" } else { "c0" },
-        exec.tok(),
-        steps.iter().map(|s| s.tok()).collect::<Vec<_>>().join("+"),
-        join_or_dash(toks)
-    );
+    let (out, toks): (Result<Vec<String>, String>, Vec<String>) = if keyed {
+        let mut c = from_vec(&p, rows.to_vec());
+        for s in steps {
+            c = match s {
+                Step::Inc => c.map_values(|r: &Rec| step_inc(r)),
+                Step::Heal => c.map_values(|r: &Rec| step_heal(r)),
+                Step::Brk => c.map_values(|r: &Rec| step_brk(r)),
+                Step::Odd => c.filter_values(|r: &Rec| step_odd(r)),
+                Step::Val => c.validate_values_with_mode(mode.real(), handle()),
+            };
+        }
+        (flatten_run(collect(c, exec), enc_kv), rows.iter().map(enc_kv).collect())
+    } else {
+        let recs: Vec<Rec> = rows.iter().map(|kv| kv.1.clone()).collect();
+        let toks = recs.iter().map(enc_rec).collect();
+        let mut c = from_vec(&p, recs);
+        for s in steps {
+            c = match s {
+                Step::Inc => c.map(|r: &Rec| step_inc(r)),
+                Step::Heal => c.map(|r: &Rec| step_heal(r)),
+                Step::Brk => c.map(|r: &Rec| step_brk(r)),
+                Step::Odd => c.filter(|r: &Rec| step_odd(r)),
+                Step::Val => c.validate_with_mode(mode.real(), handle()),
+            };
+        }
+        (flatten_run(collect(c, exec), enc_rec), toks)
+    };
+    let (log, count) = read_collector(&collector);
+    let obs = Obs { out, log, count };
+    let req = format!("VPIPE {} {} {} {} {} {}", mode.tok(), if keyed { "kv" } else { "rec" }, coll.tok(), exec.tok(), steps_tok(steps), join_or_dash(toks));
     // the panic index depends on what the earlier steps dropped; compare only the fact for VPIPE
-    let ans = match canon_answer(&obs, exec, true) {
+    let ans = match canon_answer(&obs, coll, exec, keyed) {
         a if a.starts_with("PANIC") => "PANIC".to_string(),
         a => a,
     };
     let i = cx.case(req, ans, true);
-    cx.count("vpipe");
+    cx.count(if keyed { "vpipe:kv" } else { "vpipe:rec" });
+    if steps.iter().filter(|s| **s == Step::Val).count() >= 2 { cx.count("vpipe:two-or-more-validators-share-the-collector"); }
+    coll_stats(cx, coll);
     // oracle: the steps as written, record by record (every step is element-wise)
     let mut cur: Vec<(i64, Rec)> = rows.to_vec();
     let mut want_log: Vec<String> = vec![];
     let mut want_fail = false;
+    let mut logging_validators = 0;
     for s in steps {
         match s {
             Step::Inc => cur = cur.iter().map(|(k, r)| (*k, step_inc(r))).collect(),
             Step::Heal => cur = cur.iter().map(|(k, r)| (*k, step_heal(r))).collect(),
+            Step::Brk => cur = cur.iter().map(|(k, r)| (*k, step_brk(r))).collect(),
             Step::Odd => cur.retain(|(_, r)| step_odd(r)),
             Step::Val => {
+                let before = want_log.len();
                 for (_, r) in &cur {
                     if let Some(cs) = &r.errs {
-                        if mode == Mode::Log && coll { want_log.push(cs.iter().map(|c| (b'0' + c) as char).collect()); }
+                        if mode == Mode::Log && coll.present { want_log.push(digits(cs)); }
                         if mode == Mode::Ff { want_fail = true; }
                     }
                 }
+                if want_log.len() > before { logging_validators += 1; }
                 cur.retain(|(_, r)| r.errs.is_none());
             }
         }
     }
+    if logging_validators >= 2 { cx.count("vpipe:two-or-more-validators-logged"); }
     want_log.sort();
-    let mut got_log: Vec<String> = obs.log.iter().map(|x| x.1.clone()).collect();
+    let new = oracle_collector(cx, i, coll, &obs);
+    let mut got_log: Vec<String> = new.iter().map(|x| x.1.clone()).collect();
     got_log.sort();
     match &obs.out {
         Ok(kept) => {
-            let want: Vec<String> = cur.iter().map(enc_kv).collect();
+            let want: Vec<String> = cur.iter().map(|kv| if keyed { enc_kv(kv) } else { enc_rec(&kv.1) }).collect();
             if want_fail {
                 cx.oracle_fail(i, "vpipe-failfast-passed-with-invalid-record", format!("returned {} rows", kept.len()));
             } else if *kept != want {
@@ -439,7 +612,8 @@ fn case_vpipe(cx: &mut Ctx, mode: Mode, coll: bool, exec: Exec, steps: &[Step], 
         }
         Err(m) => {
             if !want_fail {
-                cx.oracle_fail(i, "vpipe-run-failed", m.clone());
+                let sig = if coll.poisoned && m.contains("PoisonError") { "skip-or-log-run-failed-on-poisoned-collector" } else { "vpipe-run-failed" };
+                cx.oracle_fail(i, sig, m.clone());
             }
         }
     }
@@ -472,6 +646,9 @@ fn pos_errs(i: usize) -> Vec<u8> {
         2 => vec![],
         _ => vec![9, (i as u8) % 10, 0],
     }
+}
+fn bits_pattern(len: usize, bits: u32) -> Vec<Option<Vec<u8>>> {
+    (0..len).map(|i| if bits >> i & 1 == 1 { Some(pos_errs(i)) } else { None }).collect()
 }
 
 fn random_errs(cx: &mut Ctx) -> Vec<u8> {
@@ -509,6 +686,7 @@ fn random_pattern(cx: &mut Ctx, len: usize) -> Vec<Option<Vec<u8>>> {
 }
 
 pub fn run(cx: &mut Ctx) {
+    let used = used_states();
     // ---- (1) corpus: design witnesses / minimised past failures
     one_combine(cx, &[Some(vec![])]);                       // Err(vec![]) is a failed part
     one_combine(cx, &[None, Some(vec![]), None]);
@@ -525,13 +703,49 @@ pub fn run(cx: &mut Ctx) {
             case_rec(cx, Mode::Log, false, true, e, &rows);
             case_kv(cx, Mode::Log, false, true, e, &mk_kv(&rows));
         }
+        // a poisoned collector (user code panicked while holding the guard): log mode must still complete and log
+        for e in [Exec::Seq, Exec::Par(2)] {
+            case_rec_c(cx, Mode::Log, false, &used[1], e, &rows);
+            case_kv_c(cx, Mode::Log, false, &used[1], e, &mk_kv(&rows));
+        }
+        // a collector that already holds `record_1`: the run's own `record_1` entries are further entries
+        // (ids are partition-local and not unique; seeded mutant C17-1 merged entries with equal ids)
+        let pre = Coll { present: true, poisoned: false, init: vec![ent("record_1", "9"), ent("pair_1", "9")] };
+        for e in [Exec::Seq, Exec::Par(2)] {
+            case_rec_c(cx, Mode::Log, false, &pre, e, &rows);
+            case_kv_c(cx, Mode::Log, false, &pre, e, &mk_kv(&rows));
+        }
+        // the same collector used by two runs
+        for keyed in [false, true] {
+            case_reuse(cx, keyed, &Coll::fresh(), Exec::Seq, &rows, Mode::Log, Exec::Par(2), &rows);
+        }
+        // `collect_par(_, None)`: the partition count is the planner's suggestion (machine-dependent)
+        {
+            let big = mk_rows(&(0..40).map(|i| if i % 3 == 1 { Some(pos_errs(i)) } else { None }).collect::<Vec<_>>());
+            for (m, short, coll) in variants(false) { case_rec(cx, m, short, coll, Exec::ParNone, &big); }
+            for (m, short, coll) in variants(true) { case_kv(cx, m, short, coll, Exec::ParNone, &mk_kv(&big)); }
+            case_rec_c(cx, Mode::Log, false, &used[0], Exec::ParNone, &rows);
+            case_rec(cx, Mode::Ff, false, true, Exec::ParNone, &mk_rows(&[None, None, None]));
+            case_rec(cx, Mode::Log, false, true, Exec::ParNone, &[]);
+        }
         // validator between a map and a filter on values: must stay where it was written
         let kv = mk_kv(&mk_rows(&[Some(vec![2]), Some(vec![1]), None, Some(vec![4, 5]), Some(vec![3])]));
         for m in MODES {
             for e in [Exec::Seq, Exec::Par(2)] {
-                case_vpipe(cx, m, true, e, &[Step::Inc, Step::Val, Step::Odd], &kv);
-                case_vpipe(cx, m, true, e, &[Step::Heal, Step::Val, Step::Odd], &kv);
-                case_vpipe(cx, m, true, e, &[Step::Odd, Step::Val, Step::Heal], &kv);
+                for keyed in [true, false] {
+                    case_vpipe(cx, m, keyed, &Coll::fresh(), e, &[Step::Inc, Step::Val, Step::Odd], &kv);
+                    case_vpipe(cx, m, keyed, &Coll::fresh(), e, &[Step::Heal, Step::Val, Step::Odd], &kv);
+                    case_vpipe(cx, m, keyed, &Coll::fresh(), e, &[Step::Odd, Step::Val, Step::Heal], &kv);
+                }
+            }
+        }
+        // two validators of one block share the collector and both log: in every partition the second one starts
+        // again at index 0
+        let kv = mk_kv(&mk_rows(&[None, Some(vec![1]), None, None, Some(vec![4, 6]), None, None]));
+        for keyed in [true, false] {
+            for e in [Exec::Seq, Exec::Par(2), Exec::ParNone] {
+                case_vpipe(cx, Mode::Log, keyed, &Coll::fresh(), e, &[Step::Val, Step::Brk, Step::Val], &kv);
+                case_vpipe(cx, Mode::Log, keyed, &used[0], e, &[Step::Val, Step::Brk, Step::Val], &kv);
             }
         }
     }
@@ -543,27 +757,64 @@ pub fn run(cx: &mut Ctx) {
     for len in 0..=maxlen {
         // validity patterns: bit i set = record i invalid, with position-dependent payload
         for bits in 0u32..(1 << len) {
-            let pat: Vec<Option<Vec<u8>>> = (0..len).map(|i| if bits >> i & 1 == 1 { Some(pos_errs(i)) } else { None }).collect();
-            let rows = mk_rows(&pat);
+            let rows = mk_rows(&bits_pattern(len, bits));
             let kv = mk_kv(&rows);
             npat += 1;
-            for e in all_execs(len, maxlen + 1) {
+            for e in all_execs(maxlen + 1) {
+                let few = matches!(e, Exec::Seq | Exec::Par(2) | Exec::Par(3));
                 for (m, short, coll) in variants(false) {
                     // collector-less / short forms only sequentially and for two partition counts (they add nothing per n)
-                    if (short || !coll) && !matches!(e, Exec::Seq | Exec::Par(2) | Exec::Par(3)) { continue; }
+                    if (short || !coll) && !few { continue; }
                     case_rec(cx, m, short, coll, e, &rows);
                 }
                 for (m, short, coll) in variants(true) {
-                    if (short || !coll) && !matches!(e, Exec::Seq | Exec::Par(2) | Exec::Par(3)) { continue; }
+                    if (short || !coll) && !few { continue; }
                     case_kv(cx, m, short, coll, e, &kv);
+                }
+                // collector-state dimension: a used (pre-populated / poisoned / both) collector
+                for st in &used {
+                    for m in MODES {
+                        if m != Mode::Log && !few { continue; }
+                        case_rec_c(cx, m, false, st, e, &rows);
+                        case_kv_c(cx, m, false, st, e, &kv);
+                    }
                 }
             }
         }
     }
     cx.exhaustive_blocks.push(format!(
-        "VALIDATE: all {npat} valid/invalid patterns of 0..={maxlen} records (invalid payloads: 1, 2, 0 and 3 errors by position) x (sequential + partitions 1..={}) x 3 modes with collector x keyed/unkeyed; collector-less and convenience builders at seq, 2 and 3 partitions",
+        "VALIDATE: all {npat} valid/invalid patterns of 0..={maxlen} records (invalid payloads: 1, 2, 0 and 3 errors by position) x (sequential + partitions 1..={}) x 3 modes with collector x keyed/unkeyed; collector-less and convenience builders at seq, 2 and 3 partitions; collector states: fresh, pre-populated with 5 entries (ids record_0/1, pair_0/1, none), poisoned, poisoned + pre-populated (log mode at every partition count, skip/fail-fast at seq, 2, 3)",
         maxlen + 1
     ));
+    // one collector, two runs: every pattern of 0..=rl records as the SECOND run
+    {
+        let rl = if cx.tier == Tier::Thorough { 5 } else { 4 };
+        let firsts = [mk_rows(&[None, Some(vec![1]), None, Some(vec![2, 3])]), mk_rows(&[Some(vec![5])])];
+        let mut n2 = 0usize;
+        for len in 0..=rl {
+            for bits in 0u32..(1 << len) {
+                let rows2 = mk_rows(&bits_pattern(len, bits));
+                n2 += 1;
+                for (fi, rows1) in firsts.iter().enumerate() {
+                    let exec1 = if fi == 0 { Exec::Seq } else { Exec::Par(1) };
+                    let c0 = if fi == 0 { Coll::fresh() } else { used[2].clone() };
+                    for e2 in all_execs(rl + 1) {
+                        for keyed in [false, true] {
+                            case_reuse(cx, keyed, &c0, exec1, rows1, Mode::Log, e2, &rows2);
+                            if matches!(e2, Exec::Seq | Exec::Par(2)) {
+                                case_reuse(cx, keyed, &c0, exec1, rows1, Mode::Skip, e2, &rows2);
+                                case_reuse(cx, keyed, &c0, exec1, rows1, Mode::Ff, e2, &rows2);
+                            }
+                        }
+                    }
+                }
+            }
+        }
+        cx.exhaustive_blocks.push(format!(
+            "VALIDATE (one collector, two runs): a first log-mode run (4 records sequentially on a fresh collector / 1 record on a poisoned pre-populated one) followed, on the SAME Arc, by all {n2} patterns of 0..={rl} records x (sequential + partitions 1..={}) in log mode, and skip / fail-fast at seq and 2 partitions; keyed/unkeyed",
+            rl + 1
+        ));
+    }
     let alpha: Vec<Option<Vec<u8>>> = vec![None, Some(vec![]), Some(vec![1]), Some(vec![2, 3])];
     let cl = if cx.tier == Tier::Thorough { 5 } else { 4 };
     let mut ncomb = 0usize;
@@ -571,30 +822,33 @@ pub fn run(cx: &mut Ctx) {
         for p in all_patterns(len, &alpha) { one_combine(cx, &p); ncomb += 1; }
     }
     cx.exhaustive_blocks.push(format!("COMBINE: all {ncomb} lists of 0..={cl} results over {{Ok, Err[], Err[1], Err[2,3]}}"));
-    // planner pin: every arrangement of up to 3 value steps around one validator, on a fixed 6-row input
+    // fused blocks: every sequence of 1..=4 steps that contains a validator, on a fixed 8-row input
     {
-        let kv = mk_kv(&mk_rows(&[Some(vec![2]), Some(vec![1]), None, Some(vec![4, 6]), Some(vec![3]), None]));
-        let others = [Step::Inc, Step::Heal, Step::Odd];
-        let mut nseq = 0usize;
-        let mut seqs: Vec<Vec<Step>> = vec![vec![]];
-        for _ in 0..3 {
+        let kv = mk_kv(&mk_rows(&[None, Some(vec![1]), Some(vec![2]), None, Some(vec![4, 6]), None, None, Some(vec![3])]));
+        let alphabet = [Step::Inc, Step::Heal, Step::Brk, Step::Odd, Step::Val];
+        let mut seqs: Vec<Vec<Step>> = vec![];
+        let mut layer: Vec<Vec<Step>> = vec![vec![]];
+        for _ in 0..4 {
             let mut next = vec![];
-            for s in &seqs { for o in others { let mut t = s.clone(); t.push(o); next.push(t); } }
-            seqs.extend(next.iter().cloned());
-            seqs.sort_by_key(|s| s.iter().map(|x| x.tok()).collect::<Vec<_>>().join("+"));
-            seqs.dedup();
+            for s in &layer { for o in alphabet { let mut t = s.clone(); t.push(o); next.push(t); } }
+            seqs.extend(next.iter().filter(|s| s.contains(&Step::Val)).cloned());
+            layer = next;
         }
-        for s in &seqs {
-            for pos in 0..=s.len() {
-                let mut steps = s.clone();
-                steps.insert(pos, Step::Val);
-                nseq += 1;
+        let nseq = seqs.len();
+        for steps in &seqs {
+            for keyed in [true, false] {
                 for m in MODES {
-                    for e in [Exec::Seq, Exec::Par(3)] { case_vpipe(cx, m, true, e, &steps, &kv); }
+                    for e in [Exec::Seq, Exec::Par(3)] {
+                        case_vpipe(cx, m, keyed, &Coll::fresh(), e, steps, &kv);
+                        if m == Mode::Log {
+                            case_vpipe(cx, m, keyed, &used[0], e, steps, &kv);
+                            case_vpipe(cx, m, keyed, &used[2], e, steps, &kv);
+                        }
+                    }
                 }
             }
         }
-        cx.exhaustive_blocks.push(format!("VPIPE: all {nseq} placements of one validate_values among 0..=3 steps over {{map_values inc, map_values heal, filter_values odd}} x 3 modes x seq/3 partitions, through the real planner"));
+        cx.exhaustive_blocks.push(format!("VPIPE: all {nseq} sequences of 1..=4 steps over {{inc, heal, brk, odd, val}} with at least one validator (all validators of a sequence share one collector) x keyed (map_values/filter_values/validate_values) and unkeyed (map/filter/validate) x 3 modes x seq/3 partitions, through the real planner; log mode also on a pre-populated and on a poisoned pre-populated collector"));
     }
 
     // ---- (2b) contention block: many partitions pushing into the one collector at the same time
@@ -607,10 +861,12 @@ pub fn run(cx: &mut Ctx) {
         for rep in 0..reps {
             JITTER.store(if rep % 2 == 0 { 0 } else { 40 }, Ordering::Relaxed);
             for n in [8usize, 64, 400] {
-                case_rec(cx, Mode::Log, false, true, Exec::Par(n), &rows);
-                case_kv(cx, Mode::Log, false, true, Exec::Par(n), &kv);
+                let st = if rep % 4 < 2 { Coll::fresh() } else { used[2].clone() };
+                case_rec_c(cx, Mode::Log, false, &st, Exec::Par(n), &rows);
+                case_kv_c(cx, Mode::Log, false, &st, Exec::Par(n), &kv);
                 cx.count("contention-runs");
             }
+            case_rec(cx, Mode::Log, false, true, Exec::ParNone, &rows);
         }
         JITTER.store(0, Ordering::Relaxed);
     }
@@ -627,31 +883,47 @@ pub fn run(cx: &mut Ctx) {
         let keyed = cx.rng.chance(1, 2);
         let kv: Vec<(i64, Rec)> = rows.iter().map(|r| (cx.rng.range(0, 4), r.clone())).collect();
         let vs = variants(keyed);
+        let st = random_coll(cx);
         for e in some_execs(len) {
             // log mode with collector on every partition count; one further variant per count
-            let extra = *cx.rng.pick(&vs);
-            for (m, short, coll) in [(Mode::Log, false, true), extra] {
-                if keyed { case_kv(cx, m, short, coll, e, &kv); } else { case_rec(cx, m, short, coll, e, &rows); }
+            let (xm, xshort, xcoll) = *cx.rng.pick(&vs);
+            let xst = if xcoll { st.clone() } else { Coll::none() };
+            for (m, short, c) in [(Mode::Log, false, &st), (xm, xshort, &xst)] {
+                if keyed { case_kv_c(cx, m, short, c, e, &kv); } else { case_rec_c(cx, m, short, c, e, &rows); }
             }
         }
         // fail-fast on the same input, sequential + every partition count of the family + a random one
         let n = 1 + cx.rng.below(len + 2);
         let mut ff_execs = some_execs(len);
         ff_execs.push(Exec::Par(n));
+        if cx.rng.chance(1, 8) { ff_execs.push(Exec::ParNone); }
         for e in ff_execs {
-            if keyed { case_kv(cx, Mode::Ff, false, true, e, &kv); } else { case_rec(cx, Mode::Ff, false, true, e, &rows); }
+            if keyed { case_kv_c(cx, Mode::Ff, false, &st, e, &kv); } else { case_rec_c(cx, Mode::Ff, false, &st, e, &rows); }
+        }
+        // the same collector for a second run over another input
+        if cx.rng.chance(1, 3) {
+            let len2 = cx.rng.below(12);
+            let pat2 = random_pattern(cx, len2);
+            let rows2 = mk_rows(&pat2);
+            let e1 = if cx.rng.chance(1, 2) { Exec::Seq } else { Exec::Par(1) };
+            let e2 = if cx.rng.chance(1, 3) { Exec::Seq } else { Exec::Par(1 + cx.rng.below(len2 + 2)) };
+            let m2 = *cx.rng.pick(&[Mode::Log, Mode::Log, Mode::Skip, Mode::Ff]);
+            let first: Vec<Rec> = rows.iter().take(12).cloned().collect();
+            case_reuse(cx, keyed, &st, e1, &first, m2, e2, &rows2);
         }
         // combine over the same verdicts
         one_combine(cx, &pat[..pat.len().min(12)]);
-        // a random value block with one or two validators, through the planner
+        // a random block with one or more validators, through the planner
         if cx.rng.chance(1, 2) {
-            let k = 1 + cx.rng.below(5);
-            let mut steps: Vec<Step> = (0..k).map(|_| *cx.rng.pick(&[Step::Inc, Step::Heal, Step::Odd, Step::Val])).collect();
+            let k = 1 + cx.rng.below(6);
+            let mut steps: Vec<Step> = (0..k).map(|_| *cx.rng.pick(&[Step::Inc, Step::Heal, Step::Brk, Step::Odd, Step::Val, Step::Val])).collect();
             if !steps.contains(&Step::Val) { let p = cx.rng.below(steps.len() + 1); steps.insert(p, Step::Val); }
             let m = *cx.rng.pick(&MODES);
-            let e = if cx.rng.chance(1, 2) { Exec::Seq } else { Exec::Par(1 + cx.rng.below(len + 2)) };
+            let e = match cx.rng.below(8) { 0..=3 => Exec::Seq, 4 => Exec::ParNone, _ => Exec::Par(1 + cx.rng.below(len + 2)) };
             let short_kv: Vec<(i64, Rec)> = kv.iter().take(20).cloned().collect();
-            case_vpipe(cx, m, true, e, &steps, &short_kv);
+            let c = if cx.rng.chance(1, 6) { Coll::none() } else { st.clone() };
+            let vkeyed = cx.rng.chance(1, 2);
+            case_vpipe(cx, m, vkeyed, &c, e, &steps, &short_kv);
         }
     }
     JITTER.store(0, Ordering::Relaxed);
@@ -723,5 +995,19 @@ pub fn tables(out: &mut String) {
     out.push_str("def valueStepFlags : List (String × Bool × Bool × Bool × Nat) := [\n");
     out.push_str(&format!("  (\"map_values\", {}, {}, {}, {}),\n", mv[0].0, mv[0].1, mv[0].2, mv[0].3));
     out.push_str(&format!("  (\"filter_values\", {}, {}, {}, {})\n", fv[0].0, fv[0].1, fv[0].2, fv[0].3));
+    out.push_str("]\n\n");
+
+    // the two element-wise steps the unkeyed VPIPE requests put around a validator
+    let p = Pipeline::default();
+    let _ = from_vec(&p, vec![0i64]).map(|v: &i64| *v);
+    let mv = flags_of(&p);
+    let p = Pipeline::default();
+    let _ = from_vec(&p, vec![0i64]).filter(|_: &i64| true);
+    let fv = flags_of(&p);
+    assert!(mv.len() == 1 && fv.len() == 1);
+    out.push_str("/-- C17: flags of `map` / `filter` (the steps placed around unkeyed validators in `VPIPE`) -/\n");
+    out.push_str("def elemStepFlags : List (String × Bool × Bool × Bool × Nat) := [\n");
+    out.push_str(&format!("  (\"map\", {}, {}, {}, {}),\n", mv[0].0, mv[0].1, mv[0].2, mv[0].3));
+    out.push_str(&format!("  (\"filter\", {}, {}, {}, {})\n", fv[0].0, fv[0].1, fv[0].2, fv[0].3));
     out.push_str("]\n\n");
 }
